@@ -10,7 +10,9 @@ EXPLANATION = (
     "DropInServiceAdaptor::updateDropIns - exception-escape propagation over the whole call graph "
     "with try/handler types; (ii) every std::sto* conversion of configuration text passes a position "
     "argument that is compared with the input length (full-consumption idiom); (iii) Util::parseSize "
-    "converts a floating value to an integer only under a finiteness test and an upper bound, and "
+    "converts a floating value to an integer only under a finiteness test and an upper bound, adds a "
+    "term to the running total only where total + term is bounded by a constant that evaluates to at "
+    "most 2^63 with the matching strictness (so the total cannot wrap or reach INT64_MIN), and "
     "parseSizeOrPercent shifts only range-checked values; (iv) for every addArgumentCustom the "
     "parser's own result type agrees with the destination (no integer parser for a fractional "
     "destination, no unsigned conversion for a signed 64-bit value); (v) every plugin init tests the "
@@ -196,6 +198,51 @@ def run(ctx):
                   "a floating value is added to the integer size without a finiteness test and an upper bound "
                   "('1e30', 'nan', 'inf', '99999999999T' are accepted as garbage; the conversion is undefined behaviour)",
                   witness_path(ps, fl, i))
+    # the running total: every accumulation is dominated by a bound on total + term that keeps it below 2^63
+    Xps = Expander(P, ps)
+    LIM = 9223372036854775808.0
+
+    def const_of(txt):
+        t = txt
+        init, v = local_init(ps, t, must=False) if re.match(r"^\w+$", t) else (-1, None)
+        if v is not None and init is not None and init >= 0:
+            t = ps.text(init)
+        t = t.strip("()")
+        try:
+            return float(t)
+        except ValueError:
+            return None
+    acc = [i for i, n in enumerate(ps.nodes) if n["k"] == "bin" and n["op"] in ("+=",) and ps.pos_of(i) is not None and
+           ps.nodes[ps.strip(n["l"])].get("k") == "ref" and ps.nodes[ps.strip(n["l"])].get("tw", "").startswith(("u", "i")) and
+           ps.nodes[ps.strip(n["l"])].get("name") not in ("pos",)]
+    ctx.counters["parseSize_accumulations"] = len(acc)
+    ctx.floor("parseSize_accumulations", 1, "accumulation of a term into the size in parseSize")
+    for i in acc:
+        tot = ps.text(ps.nodes[i]["l"])
+        term = ps.text(ps.strip(ps.nodes[i]["r"]))
+        g = fl.guards(i)
+        ok, seen = False, []
+        for k, p in g:
+            m1 = re.match(r"^\(\((?:%s \+ %s|%s \+ %s)\) < (.+)\)$" % (re.escape(tot), re.escape(term), re.escape(term), re.escape(tot)), k)
+            m2 = re.match(r"^\((.+) < \((?:%s \+ %s|%s \+ %s)\)\)$" % (re.escape(tot), re.escape(term), re.escape(term), re.escape(tot)), k)
+            if m1 and p is True:
+                c = const_of(m1.group(1))
+                seen.append("total + term < %s" % m1.group(1))
+                ok = ok or (c is not None and c <= LIM)
+            if m2 and p is False:
+                c = const_of(m2.group(1))
+                seen.append("total + term <= %s" % m2.group(1))
+                ok = ok or (c is not None and c < LIM)
+            # integer form: total <= MAX - term
+            m3 = re.match(r"^\(\((.+) - %s\) < %s\)$" % (re.escape(term), re.escape(tot)), k)
+            if m3 and p is False:
+                c = const_of(m3.group(1))
+                seen.append("total <= %s - term" % m3.group(1))
+                ok = ok or (c is not None and c < LIM)
+        ctx.check(ok, "parseSize:total-stays-below-2^63", "guarded_by + constant evaluation", ps.loc(i),
+                  "each term is added only when total + term is known to stay below 2^63: the result fits int64_t and cannot wrap",
+                  "'%s += %s' is not dominated by a bound that keeps total + term below 2^63 (bounds seen: %s): a total of 2^63 or more is accepted "
+                  "and wraps (e.g. '8388608T' -> INT64_MIN, or several terms that only overflow together)" % (tot, term, seen or "none"), witness_path(ps, fl, i))
     pp = ctx.fn1("Oomd::Util::parseSizeOrPercent")
     fp = Flow(P, pp, cg=cg)
     sh = [i for i, n in enumerate(pp.nodes) if n["k"] == "bin" and n["op"] == "<<" and pp.pos_of(i) is not None]
